@@ -3,6 +3,7 @@ package main
 import (
 	"fmt"
 	"math/rand"
+	"sort"
 	"strings"
 
 	"github.com/apache/arrow-go/v18/arrow"
@@ -11,7 +12,11 @@ import (
 )
 
 // C35 batch specs. A column type is written in a tiny grammar:
-//   i = int64, s = utf8, d = dictionary<int32, utf8>, l(T) = list<T>, t(T,...) = struct<T,...>
+//   i = int64, s = utf8, d = dictionary<int32, utf8>, l(T) = list<T>, t(T,...) = struct<T,...>,
+//   m = map<utf8, int64>
+// A batch also carries a "cosmetic" bit set (Cos) that changes the schema WITHOUT changing
+// arrow's Schema.Fingerprint(): field / schema metadata, list child name / nullability /
+// metadata, struct child metadata, map key / value names.
 // and a batch is (column types, rows, data seed, custom metadata). Values are
 // derived deterministically from DataSeed so that a case replays identically.
 
@@ -25,7 +30,7 @@ func c35ParseTy(s string) (*c35Ty, string) {
 		panic("c35: empty type")
 	}
 	switch s[0] {
-	case 'i', 's', 'd':
+	case 'i', 's', 'd', 'm':
 		return &c35Ty{K: s[0]}, s[1:]
 	case 'l', 't':
 		k := s[0]
@@ -62,7 +67,18 @@ func c35MustTy(s string) *c35Ty {
 	return t
 }
 
-func (t *c35Ty) arrow() arrow.DataType {
+const (
+	cosFieldMD       = 1  // top-level fields carry metadata
+	cosSchemaMD      = 2  // the schema carries metadata
+	cosListName      = 4  // list child is called "element" instead of "item"
+	cosListNonNull   = 8  // list child is declared non-nullable
+	cosStructChildMD = 16 // struct children carry metadata
+	cosMapNames      = 32 // map key / value fields are called "k" / "v"
+	cosListChildMD   = 64 // list child carries metadata
+	cosAll           = 127
+)
+
+func (t *c35Ty) arrow(cos int) arrow.DataType {
 	switch t.K {
 	case 'i':
 		return arrow.PrimitiveTypes.Int64
@@ -70,12 +86,29 @@ func (t *c35Ty) arrow() arrow.DataType {
 		return arrow.BinaryTypes.String
 	case 'd':
 		return &arrow.DictionaryType{IndexType: arrow.PrimitiveTypes.Int32, ValueType: arrow.BinaryTypes.String}
+	case 'm':
+		kn, vn := "key", "value"
+		if cos&cosMapNames != 0 {
+			kn, vn = "k", "v"
+		}
+		return arrow.MapOfFields(arrow.Field{Name: kn, Type: arrow.BinaryTypes.String},
+			arrow.Field{Name: vn, Type: arrow.PrimitiveTypes.Int64, Nullable: true})
 	case 'l':
-		return arrow.ListOf(t.Kids[0].arrow())
+		f := arrow.Field{Name: "item", Type: t.Kids[0].arrow(cos), Nullable: cos&cosListNonNull == 0}
+		if cos&cosListName != 0 {
+			f.Name = "element"
+		}
+		if cos&cosListChildMD != 0 {
+			f.Metadata = arrow.NewMetadata([]string{"child"}, []string{"meta"})
+		}
+		return arrow.ListOfField(f)
 	default:
 		fs := make([]arrow.Field, len(t.Kids))
 		for i, k := range t.Kids {
-			fs[i] = arrow.Field{Name: fmt.Sprintf("f%d", i), Type: k.arrow(), Nullable: true}
+			fs[i] = arrow.Field{Name: fmt.Sprintf("f%d", i), Type: k.arrow(cos), Nullable: true}
+			if cos&cosStructChildMD != 0 {
+				fs[i].Metadata = arrow.NewMetadata([]string{"c"}, []string{fmt.Sprint(i)})
+			}
 		}
 		return arrow.StructOf(fs...)
 	}
@@ -90,6 +123,8 @@ func (t *c35Ty) coq() string {
 		return "C35.TStr"
 	case 'd':
 		return "C35.TDict"
+	case 'm': // same shape for the layout discriminators: a list of struct<utf8, int64>
+		return "(C35.TList (C35.TStruct [C35.TStr; C35.TInt]))"
 	case 'l':
 		return App("C35.TList", t.Kids[0].coq())
 	default:
@@ -99,8 +134,8 @@ func (t *c35Ty) coq() string {
 
 var c35Words = []string{"", "a", "bb", "state", "ENUM_VALUE", "ünï", "x\x00y", "zzzzzzzzzzzzzzzzzzzzzzzz"}
 
-func c35Fill(b array.Builder, t *c35Ty, r *rand.Rand) {
-	if r.Intn(7) == 0 {
+func c35Fill(b array.Builder, t *c35Ty, r *rand.Rand, cos int, nullable bool) {
+	if r.Intn(7) == 0 && nullable {
 		b.AppendNull()
 		return
 	}
@@ -113,17 +148,28 @@ func c35Fill(b array.Builder, t *c35Ty, r *rand.Rand) {
 		if err := b.(*array.BinaryDictionaryBuilder).AppendString(c35Words[r.Intn(len(c35Words))]); err != nil {
 			panic(err)
 		}
+	case 'm':
+		mb := b.(*array.MapBuilder)
+		mb.Append(true)
+		for n := r.Intn(3); n > 0; n-- {
+			mb.KeyBuilder().(*array.StringBuilder).Append(c35Words[r.Intn(len(c35Words))])
+			if r.Intn(5) == 0 {
+				mb.ItemBuilder().AppendNull()
+			} else {
+				mb.ItemBuilder().(*array.Int64Builder).Append(r.Int63n(1000))
+			}
+		}
 	case 'l':
 		lb := b.(*array.ListBuilder)
 		lb.Append(true)
 		for n := r.Intn(4); n > 0; n-- {
-			c35Fill(lb.ValueBuilder(), t.Kids[0], r)
+			c35Fill(lb.ValueBuilder(), t.Kids[0], r, cos, cos&cosListNonNull == 0)
 		}
 	default:
 		sb := b.(*array.StructBuilder)
 		sb.Append(true)
 		for i, k := range t.Kids {
-			c35Fill(sb.FieldBuilder(i), k, r)
+			c35Fill(sb.FieldBuilder(i), k, r, cos, true)
 		}
 	}
 }
@@ -133,6 +179,7 @@ type c35Batch struct {
 	Rows     int         `json:"rows"`
 	DataSeed int64       `json:"dseed"`
 	MD       [][2]string `json:"md,omitempty"` // custom metadata (unique keys, sorted by the generator)
+	Cos      int         `json:"cos,omitempty"` // cosmetic schema variant (cos* bits)
 }
 
 func (s c35Batch) types() []*c35Ty {
@@ -147,21 +194,30 @@ func (s c35Batch) schema() *arrow.Schema {
 	ts := s.types()
 	fs := make([]arrow.Field, len(ts))
 	for i, t := range ts {
-		fs[i] = arrow.Field{Name: fmt.Sprintf("c%d", i), Type: t.arrow(), Nullable: true}
+		fs[i] = arrow.Field{Name: fmt.Sprintf("c%d", i), Type: t.arrow(s.Cos), Nullable: true}
+		if s.Cos&cosFieldMD != 0 {
+			fs[i].Metadata = arrow.NewMetadata([]string{"unit"}, []string{fmt.Sprintf("u%d", i)})
+		}
+	}
+	if s.Cos&cosSchemaMD != 0 {
+		md := arrow.NewMetadata([]string{"origin"}, []string{"B"})
+		return arrow.NewSchema(fs, &md)
 	}
 	return arrow.NewSchema(fs, nil)
 }
 
 // build materialises the batch (caller releases).
-func (s c35Batch) build() arrow.RecordBatch {
-	sch := s.schema()
+func (s c35Batch) build() arrow.RecordBatch { return s.buildWith(s.schema()) }
+
+// buildWith materialises the batch on the given schema OBJECT (which must be a schema of this spec).
+func (s c35Batch) buildWith(sch *arrow.Schema) arrow.RecordBatch {
 	rb := array.NewRecordBuilder(memory.DefaultAllocator, sch)
 	defer rb.Release()
 	r := rand.New(rand.NewSource(s.DataSeed))
 	ts := s.types()
 	for row := 0; row < s.Rows; row++ {
 		for i, t := range ts {
-			c35Fill(rb.Field(i), t, r)
+			c35Fill(rb.Field(i), t, r, s.Cos, true)
 		}
 	}
 	rec := rb.NewRecordBatch()
@@ -178,5 +234,47 @@ func (s c35Batch) build() arrow.RecordBatch {
 }
 
 func (s c35Batch) String() string {
-	return fmt.Sprintf("%s x%d", strings.Join(s.Cols, ";"), s.Rows)
+	return fmt.Sprintf("%s x%d cos=%d", strings.Join(s.Cols, ";"), s.Rows, s.Cos)
+}
+
+// --- strict schema rendering: names, nullability, metadata at every level ------------------
+
+func c35MDString(m arrow.Metadata) string {
+	kv := make([]string, m.Len())
+	for i := range kv {
+		kv[i] = fmt.Sprintf("%q=%q", m.Keys()[i], m.Values()[i])
+	}
+	sort.Strings(kv)
+	return "{" + strings.Join(kv, ",") + "}"
+}
+
+func c35FieldString(f arrow.Field) string {
+	return fmt.Sprintf("%q null=%v md=%s %s", f.Name, f.Nullable, c35MDString(f.Metadata), c35TypeString(f.Type))
+}
+
+func c35TypeString(t arrow.DataType) string {
+	switch tt := t.(type) {
+	case *arrow.MapType:
+		return fmt.Sprintf("map[sorted=%v entries=%q]<%s | %s>", tt.KeysSorted, tt.ElemField().Name, c35FieldString(tt.KeyField()), c35FieldString(tt.ItemField()))
+	case *arrow.ListType:
+		return "list<" + c35FieldString(tt.ElemField()) + ">"
+	case *arrow.StructType:
+		fs := make([]string, tt.NumFields())
+		for i := range fs {
+			fs[i] = c35FieldString(tt.Field(i))
+		}
+		return "struct<" + strings.Join(fs, "; ") + ">"
+	case *arrow.DictionaryType:
+		return fmt.Sprintf("dict[ordered=%v]<%s,%s>", tt.Ordered, c35TypeString(tt.IndexType), c35TypeString(tt.ValueType))
+	}
+	return t.String()
+}
+
+// c35SchemaString renders everything a schema says, including what arrow's Fingerprint leaves out.
+func c35SchemaString(s *arrow.Schema) string {
+	fs := make([]string, s.NumFields())
+	for i := range fs {
+		fs[i] = c35FieldString(s.Field(i))
+	}
+	return "schema md=" + c35MDString(s.Metadata()) + " [" + strings.Join(fs, " || ") + "]"
 }
